@@ -25,13 +25,15 @@ import (
 
 // CopyParams describes one copy scenario (C01-C04).
 type CopyParams struct {
-	Graph       GraphSpec      `json:"graph"`
-	Root        int            `json:"root"`
-	Pre         []int          `json:"pre,omitempty"` // pre-populated destination nodes (link-closed)
-	SrcKind     string         `json:"src"`           // memory | oci | ocireopen | file
-	DstKind     string         `json:"dst"`
-	API         string         `json:"api"` // Copy | CopyGraph | ExtendedCopy | ExtendedCopyGraph
-	SrcRef      string         `json:"src_ref,omitempty"`
+	Graph   GraphSpec `json:"graph"`
+	Root    int       `json:"root"`
+	Pre     []int     `json:"pre,omitempty"` // pre-populated destination nodes (link-closed)
+	SrcKind string    `json:"src"`           // memory | oci | ocireopen | file
+	DstKind string    `json:"dst"`
+	API     string    `json:"api"` // Copy | CopyGraph | ExtendedCopy | ExtendedCopyGraph
+	SrcRef  string    `json:"src_ref,omitempty"`
+	// SrcByDigest (Copy): the source reference is the root's digest string, not a tag name
+	SrcByDigest bool           `json:"src_by_digest,omitempty"`
 	DstRef      string         `json:"dst_ref,omitempty"`
 	Concurrency int            `json:"concurrency"`
 	MaxMeta     int64          `json:"max_meta,omitempty"`
@@ -381,6 +383,14 @@ func (p *copyProp) Gen(r *Rand, tier string, idx int) any {
 			cp.API, cp.MapRoot = "CopyGraph", ""
 		case "ExtendedCopy":
 			cp.API = "ExtendedCopyGraph"
+		}
+	}
+	// (not with file stores: what names a file there is the title annotation of the descriptor, and a
+	// descriptor resolved from a digest carries none)
+	if p.id == "C01" && cp.API == "Copy" && cp.MapRoot == "" && g.Nodes[cp.Root].IsManif && cp.SrcKind != "file" && cp.DstKind != "file" && r.Chance(0.15) {
+		cp.SrcByDigest = true
+		if r.Bool() {
+			cp.DstRef = "" // the destination reference is then the digest as well
 		}
 	}
 	// pre-populated destination: link-closed subset
@@ -989,6 +999,9 @@ func (p *copyProp) Run(rc *RunCtx, sc *Scenario) *RunInfo {
 		return info
 	}
 	g := cp.Graph.Build()
+	if cp.SrcByDigest {
+		cp.SrcRef = g.Nodes[cp.Root].Desc.Digest.String()
+	}
 	var v *Verdict
 	leak := rc.Bubble(func() {
 		v = p.runInBubble(rc, sc, &cp, g, info)
